@@ -129,7 +129,12 @@ def make_mesh(kind, rng):
             perm = rng.permutation(m.t.shape[1])
             m = cls(m.p, m.t[:, perm])
             return m, {'kind': kind, 'p': m.p.tolist(), 't': m.t.tolist()}
-        raise RuntimeError('no sliver-free Delaunay mesh found')
+        # (practically unreachable) fall back to a structured simplicial mesh under the same kind of affine map
+        cls = skfem.MeshTri if dim == 2 else skfem.MeshTet
+        m0 = cls.init_tensor(*_grid(rng, n, dim))
+        A, c = _affine(rng, dim)
+        m = cls(A @ m0.p + c[:, None], m0.t)
+        return m, {'kind': kind, 'p': m.p.tolist(), 't': m.t.tolist(), 'fallback': True}
     if kind in ('quad_affine', 'quad_general'):
         n = int(rng.integers(3, 6))
         xs, ys = _grid(rng, n, 2)
